@@ -12,14 +12,12 @@ Kinds of case
   partials a real component with declare_coloring(method='fd'): coloured partials == the exact jacobian.
 All values are small integers (or integers times powers of two), so every float operation is exact.
 """
-import sys
 import warnings
 import numpy as np
 from scipy.sparse import coo_matrix
 from implutil import main
 
 warnings.simplefilter('ignore')
-sys.set_int_max_str_digits(0)       # matrices travel as single big integers
 import openmdao.api as om                                             # noqa: E402
 from openmdao.utils.coloring import _compute_coloring, MNCO_bidir    # noqa: E402
 from openmdao.core.total_jac import _TotalJacInfo                     # noqa: E402
@@ -34,28 +32,22 @@ def pattern_of(c):
     return P
 
 
-def undigits(base, ds):
-    acc = 1
-    for d in reversed(ds):
-        acc = int(d) + base * acc
-    return acc
-
-
-def enc_groups(g):
+def ser_groups(g):
+    """symbol stream of a list of lists of naturals (Model.ser_groups)"""
     ds = []
     for l in g:
         ds += [int(x) + 1 for x in l] + [0]
-    return undigits(1024, ds)
+    return ds + [1022]
 
 
-def enc_mat(a):
-    a = np.asarray(a)
+def ser_mat(a):
     ds = []
-    for v in a.ravel():
+    for v in np.asarray(a).ravel():
         if float(v) != int(v):
             raise ValueError('non-integer entry %r' % v)
-        ds.append(int(v) + 32768)
-    return undigits(65536, ds)
+        v = int(v)
+        ds.append(1021 if (v < -512 or v > 508) else v + 512)
+    return ds
 
 
 def il(a):
@@ -159,7 +151,7 @@ def one_direction(P, M, cj, mode):
     if not np.array_equal(j2, M):
         bad.append('%s colored_jac_iter of the compressed products differs from M: %s' % (mode, imat(j2)))
     e1, e2 = expand_both(cjs.astype(float))
-    res = [enc_groups(glist), True, enc_mat(j1), enc_mat(e1)]
+    res = ser_groups(glist) + [1] + ser_mat(j1) + ser_mat(e1)
     if not np.array_equal(e1, e2):
         bad.append('%s colored_jac_iter and _expand_jac disagree on a compressed matrix: %s vs %s' % (mode, imat(e2), imat(e1)))
     return res, bad, ncolors
@@ -193,10 +185,8 @@ def bidir(P, M, direct):
     rr = [c for g in rg for c in g]
     if len(set(ff)) != len(ff) or len(set(rr)) != len(rr):
         bad.append('a column/row sits in two colours: fwd %s rev %s' % (fg, rg))
-    raw = {'fg': fg, 'fnz': fnz, 'rg': rg, 'rnz': rnz, 'subs': subs,
-           'enc': [enc_groups(fg), enc_groups(fnz), enc_groups(rg), enc_groups(rnz),
-                   enc_groups([p + [v for ab in l for v in ab] for p, l in subs])]}
-    return raw, [True, enc_mat(J)], bad, col.total_solves()
+    raw = {'fg': fg, 'fnz': fnz, 'rg': rg, 'rnz': rnz, 'subs': subs}
+    return raw, [1] + ser_mat(J), bad, col.total_solves()
 
 
 def auto(P, M, direct, nbidir):
